@@ -1,1 +1,4 @@
-// placeholder
+//! Generators shared by the checks.
+//!  * `relayout` — E1(b): re-lay a parseable Veryl text with generated
+//!    separators and injected comments (parseable by construction).
+pub mod relayout;
